@@ -215,7 +215,7 @@ theorem mainLoop_comment (T : Tokenizer) (body : Bytes) (ok : Ok T) (he : T.err 
     · exact o.buf
     · rw [f2, e2]; show S.rawE + 1 + 1 = _; rw [o.rawE]
   obtain ⟨⟨r1, r2⟩, r3, r4⟩ := readComment_run body _ hbody hb f3
-  have a3 := readComment_adv S'.readByte.1.readByte.1 a2.ok (by rw [f2, e2]; show 3 ≤ S.rawE + 1 + 1; omega)
+  have a3 := readComment_adv S'.readByte.1.readByte.1 a2.ok (by rw [f2, e2]; show 3 ≤ S.rawE + 1 + 1; have := o.rawE; omega)
   have a13 := (a1.trans a2).trans a3
   have hmd : S.readMarkupDeclaration = (S'.readByte.1.readByte.1.readComment, TokenType.comment) := by
     unfold readMarkupDeclaration markupGo
@@ -250,6 +250,133 @@ theorem comment_closed_form (t : Tokenizer) (body : Bytes) (ok : Ok t) (he : t.e
       textIsRaw := false, convertNull := false } body ⟨ok.le, ok.panic, ok.hang, ok.utf8⟩ he rfl hb (h.congr rfl)
   obtain ⟨p, d1, d2⟩ := this
   exact ⟨⟨p.token, p.rawS, p.rawE, p.err, p.rawTag.trans htag, p.cdata, p.buf⟩, d1, d2⟩
+
+/-! ### doctype -/
+
+/-- `kw` matches a pattern of `(upper, lower)` pairs byte by byte -/
+def patMatch : Bytes → List (Nat × Nat) → Bool
+  | [], [] => true
+  | b :: bs, (c, c') :: ps => (b == c || b == c') && patMatch bs ps
+  | _, _ => false
+
+/-- `<!` ++ kw ++ r ++ `>` with `kw` a case variant of `DOCTYPE` and no `>` in `r` -/
+def doctypeOK (kw r : Bytes) : Bool := patMatch kw htmlDoctypePat && r.all (· != 62)
+
+theorem declLoop_run : ∀ (kw : Bytes) (pat : List (Nat × Nat)) (t : Tokenizer), Ok t → patMatch kw pat = true →
+    Has t t.rawE kw → t.err = false →
+    (declLoop t pat).2 = true ∧ Stops t (declLoop t pat).1 kw.length ∧ Ok (declLoop t pat).1
+  | [], [], t, ok, _, _, he => by simp [declLoop, Stops, he, ok]
+  | [], _ :: _, t, _, hm, _, _ => by simp [patMatch] at hm
+  | _ :: _, [], t, _, hm, _, _ => by simp [patMatch] at hm
+  | b :: bs, (c, c') :: ps, t, ok, hm, h, he => by
+    simp only [patMatch, Bool.and_eq_true] at hm
+    obtain ⟨e1, e2, e3, e4⟩ := read_known h.head he
+    have ih := declLoop_run bs ps t.readByte.1 (readByte_adv ok).ok hm.2 ((h.tail.congr e4).at (by rw [e2])) e3
+    rw [declLoop]
+    simp only
+    rw [if_neg (by rw [e3]; exact Bool.false_ne_true), e1,
+      if_neg (by have := hm.1; simp only [Bool.or_eq_true, beq_iff_eq] at this; rcases this with h | h <;> simp [h])]
+    exact ⟨ih.1, ⟨by rw [ih.2.1.1, e2]; simp; omega, ih.2.1.2⟩, ih.2.2⟩
+
+theorem untilCloseAngleGo_run : ∀ (r : Bytes) (t : Tokenizer), (∀ b ∈ r, b ≠ 62) → Has t t.rawE (r ++ [62]) →
+    t.err = false →
+    Stops t (untilCloseAngleGo t) (r.length + 1) ∧ (untilCloseAngleGo t).dataS = t.dataS ∧
+    (untilCloseAngleGo t).dataE = t.rawE + r.length
+  | [], t, _, h, he => by
+    obtain ⟨e1, e2, e3, e4⟩ := read_known h.head he
+    rw [untilCloseAngleGo]
+    simp only [e3, e1, Bool.false_eq_true, dite_false, beq_self_eq_true, if_true]
+    have s := setDataEndBack_spec t.readByte.1 1 (by omega)
+    exact ⟨⟨by rw [s.2, e2]; rfl, by rw [setDataEndBack_err, e3]⟩, by simp, by rw [s.1, e2]; simp⟩
+  | b :: r, t, hr, h, he => by
+    obtain ⟨e1, e2, e3, e4⟩ := read_known h.head he
+    have ih := untilCloseAngleGo_run r t.readByte.1 (fun x hx => hr x (by simp [hx]))
+      ((h.tail.congr e4).at (by rw [e2])) e3
+    rw [untilCloseAngleGo]
+    simp only [e3, e1, Bool.false_eq_true, dite_false, show (b == 62) = false by simp [hr b (by simp)], if_false]
+    obtain ⟨⟨r1, r2⟩, r3, r4⟩ := ih
+    exact ⟨⟨by rw [r1, e2]; simp; omega, r2⟩, by rw [r3]; simp, by rw [r4, e2]; simp; omega⟩
+
+theorem readUntilCloseAngle_run (r : Bytes) (t : Tokenizer) (hr : ∀ b ∈ r, b ≠ 62) (h : Has t t.rawE (r ++ [62]))
+    (he : t.err = false) :
+    Stops t (readUntilCloseAngle t) (r.length + 1) ∧ (readUntilCloseAngle t).dataS = t.rawE ∧
+    (readUntilCloseAngle t).dataE = t.rawE + r.length :=
+  untilCloseAngleGo_run r { t with dataS := t.rawE } hr (h.congr rfl) he
+
+theorem mem_takeWhile_p (p : Nat → Bool) : ∀ (l : Bytes) (b : Nat), b ∈ l.takeWhile p → p b = true
+  | [], b, h => by simp at h
+  | a :: l, b, h => by
+    rw [List.takeWhile_cons] at h
+    split at h
+    · rcases List.mem_cons.1 h with h | h
+      · subst h; assumption
+      · exact mem_takeWhile_p p l b h
+    · simp at h
+
+theorem mem_dropWhile_mem (p : Nat → Bool) : ∀ (l : Bytes) (b : Nat), b ∈ l.dropWhile p → b ∈ l
+  | [], b, h => by simp at h
+  | a :: l, b, h => by
+    rw [List.dropWhile_cons] at h
+    split at h
+    · exact List.mem_cons_of_mem _ (mem_dropWhile_mem p l b h)
+    · exact h
+
+/-- the bytes of `r ++ ">"` after leading white space start with a non-white-space byte -/
+theorem dropWs_head : ∀ (r : Bytes), ∃ d rest, r.dropWhile isWs ++ [62] = d :: rest ∧ isWs d = false
+  | [] => ⟨62, [], rfl, by decide⟩
+  | a :: r => by
+    rw [List.dropWhile_cons]
+    split
+    · exact dropWs_head r
+    · exact ⟨a, r ++ [62], rfl, by simpa using ‹¬ isWs a = true›⟩
+
+theorem declLoop_buf' : ∀ (pat : List (Nat × Nat)) (t : Tokenizer), (declLoop t pat).1.buf = t.buf
+  | [], t => rfl
+  | (c, c') :: ps, t => by
+    rw [declLoop]; simp only
+    split
+    · exact readByte_buf t
+    · split
+      · exact readByte_buf t
+      · rw [declLoop_buf' ps]; exact readByte_buf t
+
+theorem readDocType_run (kw r : Bytes) (t : Tokenizer) (ok : Ok t) (hok : doctypeOK kw r = true)
+    (h : Has t t.rawE (kw ++ r ++ [62])) (he : t.err = false) :
+    (readDocType t).2 = true ∧ Stops t (readDocType t).1 (kw.length + r.length + 1) ∧
+    (readDocType t).1.dataS = t.rawE + kw.length + (r.takeWhile isWs).length ∧
+    (readDocType t).1.dataE = t.rawE + kw.length + r.length := by
+  simp only [doctypeOK, Bool.and_eq_true, List.all_eq_true, bne_iff_ne, ne_eq] at hok
+  obtain ⟨hkw, hr⟩ := hok
+  obtain ⟨l2, l1, okl⟩ := declLoop_run kw htmlDoctypePat t ok hkw h.left.left he
+  obtain ⟨d, rest, hd, hdws⟩ := dropWs_head r
+  have hsplit : r ++ [62] = r.takeWhile isWs ++ ([d] ++ rest) := by
+    rw [List.singleton_append, ← hd, ← List.append_assoc, List.takeWhile_append_dropWhile]
+  have hbuf : (declLoop t htmlDoctypePat).1.buf = t.buf := by
+    exact declLoop_buf' htmlDoctypePat t
+  have h1 : Has (declLoop t htmlDoctypePat).1 (declLoop t htmlDoctypePat).1.rawE (r ++ [62]) := by
+    have := h.right; rw [List.append_assoc] at h
+    exact (h.right.congr hbuf).at l1.1
+  have sk := skipWhiteSpace_run (r.takeWhile isWs) d _ (by rw [hsplit, ← List.append_assoc] at h1; exact h1.left)
+    (fun b hb => mem_takeWhile_p isWs r b hb) hdws l1.2
+  have sf := (skipWhiteSpace_adv (declLoop t htmlDoctypePat).1 okl).buf
+  have h2 : Has (declLoop t htmlDoctypePat).1.skipWhiteSpace (declLoop t htmlDoctypePat).1.skipWhiteSpace.rawE
+      (r.dropWhile isWs ++ [62]) := by
+    rw [hsplit, List.singleton_append, ← hd] at h1
+    exact (h1.right.congr sf).at sk.1
+  have ru := readUntilCloseAngle_run (r.dropWhile isWs) _ (fun b hb => hr b (mem_dropWhile_mem isWs r b hb)) h2 sk.2
+  unfold readDocType
+  simp only
+  rw [l2]
+  simp only [Bool.not_true, Bool.false_eq_true, if_false]
+  rw [if_neg (by rw [sk.2]; exact Bool.false_ne_true)]
+  obtain ⟨⟨r1, r2⟩, r3, r4⟩ := ru
+  have hlen : r.length = (r.takeWhile isWs).length + (r.dropWhile isWs).length := by
+    have := congrArg List.length (List.takeWhile_append_dropWhile (p := isWs) (l := r))
+    rw [List.length_append] at this; omega
+  refine ⟨rfl, ⟨?_, r2⟩, ?_, ?_⟩
+  · show (readUntilCloseAngle _).rawE = _; rw [r1, sk.1, l1.1]; omega
+  · show (readUntilCloseAngle _).dataS = _; rw [r3, sk.1, l1.1]
+  · show (readUntilCloseAngle _).dataE = _; rw [r4, sk.1, l1.1]; omega
 
 end Tokenizer
 end Rio.Html
